@@ -1,184 +1,227 @@
-"""C06 - symbolic dimension inference: structure of the expression collector (E3)."""
+"""C06 - symbolic dimension inference agrees with evaluation on quantities: the expression collector and Symbolic.__init__ evaluated
+abstractly on expression trees (E3 by evaluation)."""
 from __future__ import annotations
 
 import ast
+import itertools
+from fractions import Fraction
 
 from ..core import Run, AnalysisError, dotted, norm
 from ..dim import World
-from ..flow import CFG, Fn, node_calls, conditions_for, stmt_of
-from .collectors import CE, run_collector_rules, homomorphism, returned_pairs, _fn, ops_in_slice, sum_like_discipline, same_exponent
+from ..alg import T, num, var, op, app
+from ..pyreader import Raised
+from ..gate import GateReader, Dim, Obj
+from ..exprtree import Node, Leaves, spec_expression, tree_term, Refused, same_value, is_zero_term, normalize_safe
+from .c05 import QReader, strip_float, float_num
 
 EXPLANATION = (
-    "Structural necessary conditions of the symbolic collector (collect_expression.py) and of the wrappers that use it: "
-    "S1 children coverage (every child of a Mul/Pow/Add/Abs/Min/Max/Derivative/Function node is passed, itself, to the recursive "
-    "collector; the numeric/quantity/symbolic split visits all args and all three parts reach the result); S2 dispatch table "
-    "complete and ordered; S3 the common-dimension helper compares with equivalent_dims, honours the any-dimension escape for "
-    "numbers, quantities and symbolic terms, and raises; Pow refuses a dimensional exponent; S5 Symbolic.__init__ takes its "
-    "dimension from collect_expression_and_dimension(expr)[1]; S6 homomorphism shape (Mul: *, Add: +, Pow: **, Derivative: "
-    "division by variable dimension ** order). The commuting diagram with evaluation on quantities is not decided.")
-ASSUMPTIONS = ["SymPy's expression tree API; equivalent_dims / is_dimensionless", "value-level arithmetic beyond operator kind is not examined"]
-TRUSTED = ["sympy expression tree API", "python ast"]
+    "collect_expression.py is EVALUATED (sa/pyreader.py + sa/exprtree.py) on a family of several hundred expression trees over dimensioned "
+    "symbols, applied functions, elements of indexed symbols, quantities (one of them zero-valued), numbers (exact and floating point), with "
+    "every node kind the property names (products, powers, sums, min/max, absolute value, derivatives, elementary functions) at depth one "
+    "and two. For each tree the answer - (expression, dimension) or an error - is compared with the property: S1 the dimension is the "
+    "combination of the declared dimensions of the leaves (products multiply, powers scale by the exact value of the exponent, sums, "
+    "min/max and absolute value keep the common dimension, a derivative divides by the dimensions of its variables) and the returned "
+    "expression is value-equal to the input (quantities read as their SI values); S3 an error is reported exactly when a sum or min/max "
+    "combines inequivalent dimensions (zero-valued terms excepted) or an exponent is dimensional. The shape of the code is free. S5 "
+    "Symbolic.__init__ stores the inferred dimension of its argument. K5 (shared) decides the any-dimension predicate. NOT decided: the "
+    "last clause of the property as a run-time statement (replacing symbols by quantities and constructing the quantity) - it follows from "
+    "S1 here and S1 of C05 for the tree family, not for all SymPy expression kinds.")
+ASSUMPTIONS = ["SymPy's Mul/Add/Pow/Derivative args and the dimension system behave as documented", "SymPy evaluates arithmetic on numeric scale factors correctly"]
+TRUSTED = ["sympy expression tree API", "python ast", "sa/pyreader.py abstract evaluator", "sa/alg.py normal form"]
+
+CE = "symplyphysics.core.dimensions.collect_expression"
+SYM = "symplyphysics.core.operations.symbolic"
 
 
+def tree_family(lv: Leaves) -> list:
+    L, Tm, M = Dim.of(length=1), Dim.of(time=1), Dim.of(mass=1)
+    a, b, c = lv.symbol("a", L), lv.symbol("b", L), lv.symbol("c", Tm)
+    q, r, z = lv.quantity("q", L), lv.quantity("r", Tm), lv.quantity("z", Tm, zero=True)
+    f = lv.applied("f(t)", M)
+    t = lv.symbol("t", Tm)
+    pbase = lv.symbol("p", M)
+    lv.info["p"]["kind"] = "indexedbase"
+    p1 = ("indexed-element", pbase, 1)
+    half = num(Fraction(1, 2))
+    ratio = Node("Mul", [a, Node("Pow", [b, -1])])
+    out = []
 
-def _has_raise_under(fn: ast.FunctionDef, pred) -> bool:
-    scopes = [fn] + [x for x in ast.walk(fn) if isinstance(x, ast.FunctionDef) and x is not fn]
-    for sc in scopes:
-        for r in [x for x in ast.walk(sc) if isinstance(x, ast.Raise)]:
-            conds = conditions_for(sc, r) or []
-            if any(not isinstance(t, str) and pred(t, p) for t, p in conds):
-                return True
-    return False
+    def add(label, tree):
+        out.append((label, tree))
+
+    leaves = [("a", a), ("b", b), ("c", c), ("q", q), ("r", r), ("z", z), ("f(t)", f), ("p[1]", p1), ("2", 2), ("0", 0), ("a/b", ratio)]
+    for nm, tr in leaves:
+        add(nm, tr)
+    for (n1, t1), (n2, t2) in itertools.product(leaves, repeat=2):
+        for cls in ("Mul", "Add", "Min", "Max"):
+            add(f"{cls}({n1}, {n2})", Node(cls, [t1, t2]))
+    triples = [(0, 3, 8), (3, 0, 1), (5, 0, 1), (0, 5, 2), (3, 4, 0), (8, 3, 0), (9, 5, 0), (0, 1, 3), (6, 7, 8), (7, 6, 5), (3, 3, 0), (8, 8, 10), (0, 10, 3)]
+    for i, j, k in triples:
+        for cls in ("Mul", "Add", "Min", "Max"):
+            add(f"{cls}({leaves[i][0]}, {leaves[j][0]}, {leaves[k][0]})", Node(cls, [leaves[i][1], leaves[j][1], leaves[k][1]]))
+    exps = [("2", 2), ("-1", -1), ("1/2", half), ("2.0", float_num(2)), ("c", c), ("r", r), ("z", z), ("a/b", ratio), ("0", 0)]
+    for (nb, tb), (ne, te) in itertools.product([("a", a), ("q", q), ("2", 2), ("z", z), ("a*c", Node("Mul", [a, c])), ("a/b", ratio), ("f(t)", f), ("p[1]", p1)], exps):
+        add(f"Pow({nb}, {ne})", Node("Pow", [tb, te]))
+    for nm, tr in leaves + [("a+b", Node("Add", [a, b])), ("a+c", Node("Add", [a, c]))]:
+        add(f"Abs({nm})", Node("Abs", [tr]))
+        add(f"sin({nm})", Node("Function", [tr], name="sin"))
+    add("Derivative(f(t), t)", Node("Derivative", [f, [t, 1]]))
+    add("Derivative(f(t), (t, 2))", Node("Derivative", [f, [t, 2]]))
+    add("Derivative(f(t), t, a)", Node("Derivative", [f, [t, 1], [a, 1]]))
+    add("a*Derivative(f(t), t)", Node("Mul", [a, Node("Derivative", [f, [t, 1]])]))
+    add("f(t) + Derivative(f(t), t)", Node("Add", [f, Node("Derivative", [f, [t, 1]])]))
+    add("f(t) + c*Derivative(f(t), t)", Node("Add", [f, Node("Mul", [c, Node("Derivative", [f, [t, 1]])])]))
+    compound = [("a*b", Node("Mul", [a, b])), ("a+q", Node("Add", [a, q])), ("a/b", ratio), ("z*a", Node("Mul", [z, a])), ("Abs(c)", Node("Abs", [c])), ("Min(a, q)", Node("Min", [a, q])),
+                ("a**2", Node("Pow", [a, 2])), ("a+c", Node("Add", [a, c])), ("sqrt(a*b)", Node("Pow", [Node("Mul", [a, b]), half])), ("(a*b)**1.0", Node("Pow", [Node("Mul", [a, b]), float_num(1)])),
+                ("2*q", Node("Mul", [2, q])), ("q*r", Node("Mul", [q, r])), ("q+q", Node("Add", [q, q]))]
+    partners = [("a", a), ("c", c), ("2", 2), ("z", z), ("q", q), ("a*b", Node("Mul", [a, b]))]
+    for (n1, t1), (n2, t2) in itertools.product(compound, partners):
+        for cls in ("Mul", "Add", "Max"):
+            add(f"{cls}({n1}, {n2})", Node(cls, [t1, t2]))
+            add(f"{cls}({n2}, {n1})", Node(cls, [t2, t1]))
+    for n1, t1 in compound:
+        add(f"Pow({n1}, 2)", Node("Pow", [t1, 2]))
+        add(f"Pow(f(t), {n1})", Node("Pow", [f, t1]))
+        add(f"Abs({n1})", Node("Abs", [t1]))
+        add(f"exp({n1})", Node("Function", [t1], name="exp"))
+    return out
 
 
-def _calls(e: ast.AST) -> list[str]:
-    return [dotted(c.func) or "" for c in ast.walk(e) if isinstance(c, ast.Call)]
+class EReader(QReader):
+
+    def any_dimension_value(self, v, n) -> bool:
+        # the symbolic collector asks the predicate about EXPRESSIONS: a quantity object is not recognised as zero by SymPy, whatever its scale factor;
+        # only numbers and scale factors are
+        if isinstance(v, T):
+            from ..exprtree import is_zero_term as _z
+            return _z(v)
+        return super().any_dimension_value(v, n)
+
+    def hook_attr(self, base, attr, n):
+        if isinstance(base, tuple) and base and base[0] == "indexed-element" and attr == "base":
+            return base[1]
+        return super().hook_attr(base, attr, n)
+
+    def scalar(self, v, n):
+        if isinstance(v, tuple) and v and v[0] == "indexed-element":
+            return app("Indexed", v[1], num(v[2]))
+        return super().scalar(v, n)
+
+    def hook_call(self, n, env, fns):
+        name = (dotted(n.func) or "").split(".")[-1]
+        if name in ("hasattr", "getattr") and len(n.args) >= 2:
+            v = self.ev(n.args[0], env, fns)
+            if isinstance(v, tuple) and v and v[0] == "indexed-element":
+                if name == "hasattr":
+                    return False
+                if len(n.args) == 3:
+                    return self.ev(n.args[2], env, fns)
+                raise Raised("AttributeError", getattr(n, "lineno", 0))
+            if isinstance(v, (int, Node)) and not isinstance(v, bool):
+                if name == "hasattr":
+                    return False
+                if len(n.args) == 3:
+                    return self.ev(n.args[2], env, fns)
+                raise Raised("AttributeError", getattr(n, "lineno", 0))
+        return super().hook_call(n, env, fns)
 
 
-def sum_like_rules(run: Run, mod, fn: ast.FunctionDef, label: str) -> None:
-    run.ob("S3", f"{mod.name}:{label}:any-dimension")
-    anyd = [c for c in ast.walk(fn) if isinstance(c, ast.Call) and dotted(c.func) == "is_any_dimension"]
-    operands = {norm(c.args[0]) for c in anyd if c.args}
-    if len(operands) < 2:
-        run.violate("S3", f"{mod.name}:{label}:any-dimension", mod, fn,
-                    f"the {label} handler consults the any-dimension escape for {sorted(operands) or 'no operand'}: a zero/infinite/NaN term on the other side is refused wrongly")
-    run.ob("S3", f"{mod.name}:{label}:equivalence")
-    if not _has_raise_under(fn, lambda t, p: "dimsys_SI.equivalent_dims" in _calls(t) and ((isinstance(t, ast.UnaryOp) and isinstance(t.op, ast.Not) and p is True) or (not isinstance(t, ast.UnaryOp) and p is False))):
-        run.violate("S3", f"{mod.name}:{label}:equivalence", mod, fn, f"the {label} handler no longer refuses operands whose dimensions fail dimsys_SI.equivalent_dims")
+def _collector(run: Run) -> None:
+    m = run.src.need(CE)
+    lv = Leaves()
+    fam = tree_family(lv)
+    run.require(len(fam) >= 600, "tree family shrank")
+    reported = set()
+    for label, tree in fam:
+        try:
+            want = spec_expression(tree, lv)
+        except Refused as e:
+            want = e
+        except AnalysisError:
+            continue
+        R = EReader(m.tree, "collect_expression.py", lv)
+        try:
+            got = R.call("collect_expression_and_dimension", [tree])
+        except Raised as r:
+            got = r
+        rid = "S3" if isinstance(want, Refused) or isinstance(got, Raised) else "S1"
+        run.ob(rid, label)
+        problem = None
+        if isinstance(want, Refused):
+            if not isinstance(got, Raised):
+                problem = f"is accepted (answer {got!r}) although {want}: the property demands an error"
+        elif isinstance(got, Raised):
+            problem = f"is refused ({got.exc}) although every sum-like node has terms of one dimension (zero-valued terms aside) and every exponent is dimensionless"
+        else:
+            if not (isinstance(got, list) and len(got) == 2):
+                problem = f"answers {got!r}, not an (expression, dimension) pair"
+            else:
+                ge, gd = got
+                wv = lv.value(tree_term(tree, lv))
+                if isinstance(ge, Node):
+                    ge = tree_term(ge, lv)
+                if isinstance(ge, tuple) and ge and ge[0] == "indexed-element":
+                    ge = tree_term(ge, lv)
+                if not (isinstance(ge, (T, int)) and same_value(strip_float(lv.value(ge) if isinstance(ge, T) else ge), strip_float(wv))):
+                    problem = f"returns the expression {ge!r}, which is not value-equal to the input ({wv!r} on the SI values of the quantities)"
+                elif want is not None and not (isinstance(want, tuple) and want[0] in ("opaque-dim", )) \
+                        and not (gd == want or (isinstance(gd, Dim) and isinstance(want, Dim) and gd.exps == want.exps)):
+                    problem = f"is inferred to have dimension {gd!r}; combining the declared dimensions of its leaves gives {want!r}" + \
+                        (" (a float exponent as written gives a dimension SymPy does not consider equivalent to the exact one)" if isinstance(gd, tuple) and gd[0] == "dim-float-power" else "")
+        if problem:
+            kind = (rid, problem.split(";")[0][:50], getattr(tree, "cls", "leaf"))
+            if kind in reported:
+                continue
+            reported.add(kind)
+            run.violate(rid, f"{CE}:collect_expression_and_dimension:{label}", m, m.tree, f"Symbolic collector: `{label}` {problem}")
+    run.sample({"collector": CE, "trees": len(fam)})
+
+
+class SymbolicInit(GateReader):
+
+    def __init__(self, module, where, answer):
+        super().__init__(module, where)
+        self.answer = answer
+        self.asked = []
+
+    def hook_call(self, n, env, fns):
+        name = (dotted(n.func) or "").split(".")[-1]
+        if name == "collect_expression_and_dimension" and len(n.args) == 1 and name not in self.functions:
+            self.asked.append(self.ev(n.args[0], env, fns))
+            return list(self.answer)
+        if isinstance(n.func, ast.Attribute) and n.func.attr == "__init__" and isinstance(n.func.value, ast.Call) and dotted(n.func.value.func) == "super":
+            return None
+        return super().hook_call(n, env, fns)
+
+
+def _symbolic_init(run: Run) -> None:
+    from .c11 import _methods_module
+    sm = run.src.need(SYM)
+    mm = _methods_module(sm, "Symbolic")
+    run.ob("S5", "Symbolic.__init__")
+    D = Dim.of(mass=1, length=-1, time=-2)
+    R = SymbolicInit(mm, "symbolic.py", ("EXPR-OUT", D))
+    me = Obj("Symbolic", {}, "self")
+    problem = None
+    try:
+        R.call("__init__", [me, "EXPR"], {})
+    except Raised as r:
+        problem = f"raises {r.exc}"
+    if not problem:
+        if R.asked != ["EXPR"]:
+            problem = f"asks the symbolic collector about {R.asked!r}, not about its argument"
+        elif me.attrs.get("dimension") != D or not isinstance(me.attrs.get("dimension"), Dim):
+            problem = f"stores dimension {me.attrs.get('dimension')!r}, not the dimension the collector inferred for its argument"
+    if problem:
+        run.violate("S5", f"{SYM}:Symbolic.__init__:dimension", sm, sm.tree, f"Symbolic.__init__ {problem}")
+
 
 def check(run: Run) -> None:
-    run.rule("S1", "every child of the node is passed, itself, to the recursive collector on every path of its handler; all parts of the split reach the result")
-    run.rule("S2", "dispatch table complete; no class listed before its subclass; first-match dispatch loop")
-    run.rule("S3", "common-dimension helper: equivalent_dims refusal + any-dimension escape for numbers, quantities and symbolic terms; Pow demands a dimensionless exponent")
-    run.rule("S5", "Symbolic wrappers take their dimension from collect_expression_and_dimension(expr)[1]")
-    run.rule("S6", "Mul/Add/Pow/Derivative handlers combine child values and dimensions with the operator of the node")
+    run.rule("S1", "the symbolic collector's answer for a tree is (an expression value-equal to the input, the combination of the declared dimensions of its leaves), exponents taken exactly")
+    run.rule("S3", "an error is reported exactly when a sum/min/max combines inequivalent dimensions (zero-valued terms excepted) or an exponent is dimensional")
+    run.rule("S5", "Symbolic.__init__ stores the dimension the collector infers for its argument")
     w = World(run.src)
     from .c04 import _k5
-    _k5(run, w)  # the any-dimension predicate itself (shared with C04): exactly {0, +oo, -oo, NaN}, magnitude independent
-    info = run_collector_rules(run, w, CE, "_split_numeric_and_symbolic")
-    mod, h = info["mod"], info["handlers"]
-    # leaves that carry a declared dimension: objects with a `dimension` attribute, and the ELEMENTS p[i] of an indexed symbol (sympy.Indexed has no such
-    # attribute: its dimension is that of its base)
-    ent = next((f_ for f_ in mod.tree.body if isinstance(f_, ast.FunctionDef) and f_.name == "collect_expression_and_dimension"), None)
-    if ent is None:
-        raise AnalysisError("C06: collect_expression_and_dimension not found")
-    run.ob("S2", f"{mod.name}:leaf:Indexed")
-    idx_ok = False
-    for t_ in [x for x in ast.walk(ent) if isinstance(x, ast.If)]:
-        if any(isinstance(c_, ast.Call) and dotted(c_.func) == "isinstance" and len(c_.args) == 2 and "Indexed" in {(dotted(e_) or "").split(".")[-1]
-               for e_ in (c_.args[1].elts if isinstance(c_.args[1], ast.Tuple) else [c_.args[1]])} for c_ in ast.walk(t_.test)):
-            for r_ in [x for st_ in t_.body for x in ast.walk(st_) if isinstance(x, ast.Return) and x.value is not None]:
-                txt = norm(r_.value, 200)
-                if "base" in txt and "dimension" in txt:
-                    idx_ok = True
-    handled_in_table = any(k in h for k in ("Indexed", ))
-    if not (idx_ok or handled_in_table):
-        run.violate("S2", f"{mod.name}:leaf:Indexed", mod, ent,
-                    "the symbolic collector has no case for sympy.Indexed: the element p[i] of an indexed symbol falls through to the dimensionless default, so a sum over "
-                    "elements of a pressure is inferred as a number (p[1] + 1 accepted, p[1] + p[2] - p_total refused)")
-    if any(k not in h for k in ("Mul", "Add", "Pow", "Derivative", "Min", "Max")):
-        return  # a missing dispatch entry is reported by S2; the handler-specific rules have nothing to look at
-    # S1 (second half): every part of the split reaches the returned dimension / value
-    for cls in ("Mul", "Add", "Min"):
-        fn = h[cls]
-        split = [s for s in ast.walk(fn) if isinstance(s, ast.Assign) and isinstance(s.value, ast.Call) and dotted(s.value.func) == "_split_numeric_and_symbolic"]
-        if not split:
-            continue
-        tg = split[0].targets[0]
-        if not (isinstance(tg, ast.Tuple) and len(tg.elts) == 3 and all(isinstance(e, ast.Name) for e in tg.elts)):
-            raise AnalysisError(f"C06: {fn.name} does not destructure the split into three lists")
-        nums, qtys, syms = [e.id for e in tg.elts]
-        for cfg, r, fe, de in returned_pairs(fn):
-            conds = conditions_for(fn, r.ast) or []
-            if any(not isinstance(t, str) and "is_any_dimension" in _calls(t) and p is True for t, p in conds):
-                continue
-            run.ob("S1", f"{mod.name}:{fn.name}:parts-reach-result")
-            uses_f = _names_in_slice(cfg, r, fe)
-            uses_d = _names_in_slice(cfg, r, de)
-            missing_f = [x for x in (nums, qtys, syms) if x not in uses_f]
-            missing_d = [x for x in (qtys, syms) if x not in uses_d]
-            if missing_f:
-                run.violate("S1", f"{mod.name}:{fn.name}:value-ignores:{','.join(missing_f)}", mod, r.ast, f"the value returned by the {cls} handler does not depend on {missing_f}")
-            if missing_d:
-                run.violate("S1", f"{mod.name}:{fn.name}:dimension-ignores:{','.join(missing_d)}", mod, r.ast, f"the dimension returned by the {cls} handler does not depend on {missing_d}")
-    # S3
-    ud = _fn(mod, "_collect_unique_dimension")
-    sum_like_discipline(run, mod, ud, "common-dimension", "collect_expression_and_dimension")
-    run.ob("S3", "common-dimension:raises-UnitsError")
-    loops = [s for s in ast.walk(ud) if isinstance(s, ast.For)]
-    for lp in loops:
-        run.ob("S3", f"common-dimension:loop:{norm(lp.iter, 20)}")
-        has_escape = any(isinstance(t, ast.If) and "is_any_dimension" in _calls(t.test) and len(t.body) == 1 and isinstance(t.body[0], ast.Continue) for t in lp.body)
-        has_raise = any(isinstance(t, ast.If) and "dimsys_SI.equivalent_dims" in _calls(t.test) and any(isinstance(x, ast.Raise) for x in t.body) for t in lp.body)
-        if not (has_escape and has_raise):
-            run.violate("S3", f"{mod.name}:_collect_unique_dimension:loop:{norm(lp.iter, 20)}", mod, lp,
-                        f"the loop over `{norm(lp.iter, 20)}` lacks {'the any-dimension escape' if not has_escape else 'the equivalent_dims refusal'}")
-    if len(loops) < 2:
-        run.violate("S3", f"{mod.name}:_collect_unique_dimension:loops", mod, ud, "quantities and symbolic terms are no longer both compared against the common dimension")
-    for cls in ("Add", "Min", "Max"):
-        fn = h[cls]
-        run.ob("S3", f"{cls}:uses-common-dimension")
-        calls = [c for c in ast.walk(fn) if isinstance(c, ast.Call) and dotted(c.func) == "_collect_unique_dimension"]
-        if not calls or len(calls[0].args) != 3 or conditions_for(fn, stmt_of(fn, calls[0])) != []:
-            run.violate("S3", f"{mod.name}:{fn.name}:common-dimension", mod, fn, f"the {cls} handler does not run the common-dimension check on (numbers, quantities, symbolic terms) unconditionally")
-    pw = h["Pow"]
-    run.ob("S3", "Pow:dimensionless-exponent")
-    if not _has_raise_under(pw, lambda t, p: "dimsys_SI.is_dimensionless" in _calls(t) and "is_any_dimension" in _calls(t) and p is True):
-        run.violate("S3", f"{mod.name}:_collect_pow:exponent", mod, pw, "the Pow handler no longer refuses a dimensional exponent")
-    # S5
-    s = Fn(w, "symplyphysics.core.operations.symbolic", "Symbolic.__init__")
-    run.ob("S5", "Symbolic.__init__")
-    ok = False
-    for n in s.cfg.stmt_nodes():
-        a = n.ast
-        if isinstance(a, ast.Assign) and any(dotted(t) == "self.dimension" for t in a.targets):
-            v = a.value
-            if isinstance(v, ast.Subscript) and isinstance(v.slice, ast.Constant) and v.slice.value == 1 and isinstance(v.value, ast.Call) \
-                    and s.callee(n, v.value) == CE + ".collect_expression_and_dimension" and [dotted(x) for x in v.value.args] == ["expr"] \
-                    and all(s.cfg.dominated_by(x, lambda y: y is n) for x in s.cfg.normal_exits()):
-                ok = True
-    if not ok:
-        run.violate("S5", f"{s.qual}:dimension", s.mod, s.fn, "Symbolic.__init__ does not set self.dimension = collect_expression_and_dimension(expr)[1] on every path")
-    # S6
-    homomorphism(run, mod, "Mul", h["Mul"], {"Mult"}, {"Mult"})
-    homomorphism(run, mod, "Add", h["Add"], {"Add"}, set())
-    homomorphism(run, mod, "Pow", h["Pow"], {"Pow"}, {"Pow"})
-    for cfg, r, fe, de in returned_pairs(h["Pow"]):
-        run.ob("S6", "Pow:dimension-exponent")
-        sf = {d.ast.value for d in cfg.slice(r, [fe]).def_nodes if isinstance(d.ast, ast.Assign)}
-        pf = [x for e in cfg.slice(r, [fe]).exprs for x in ast.walk(e) if isinstance(x, ast.BinOp) and isinstance(x.op, ast.Pow)]
-        pd = [x for e in cfg.slice(r, [de]).exprs for x in ast.walk(e) if isinstance(x, ast.BinOp) and isinstance(x.op, ast.Pow)]
-        if len(pf) != 1 or len(pd) != 1 or not same_exponent(cfg, r, pf[0].right, pd[0].right):
-            run.violate("S6", f"{mod.name}:_collect_pow:exponent", mod, r.ast, "value and dimension are not raised to the same exponent value")
-        elif not any(c_.split(".")[-1] in ("nsimplify", "Rational") for c_ in cfg.slice(r, [pd[0].right]).calls):
-            run.violate("S6", f"{mod.name}:_collect_pow:float-exponent", mod, r.ast,
-                        "the dimension is raised to the exponent as written: a float exponent (area**0.5) gives Dimension(length**1.0), which SymPy (Float(1.0) != 1) does not "
-                        "consider equivalent to length; the dimension's exponent must be made exact (nsimplify / Rational)")
-    dv = h["Derivative"]
-    for cfg, r, fe, de in returned_pairs(dv):
-        run.ob("S6", "Derivative:dimension")
-        od = ops_in_slice(cfg, r, de)
-        if not ({"Div"} <= od <= {"Div", "Pow"}):
-            run.violate("S6", f"{mod.name}:{dv.name}:dimension", mod, r.ast, f"the Derivative handler combines dimensions with {sorted(od)}; expected division by (variable dimension ** order)")
-    # early return for objects that carry their own dimension
-    ent = _fn(mod, "collect_expression_and_dimension")
-    run.ob("S6", "leaf:has-dimension")
-    good = False
-    for t in [x for x in ast.walk(ent) if isinstance(x, ast.If)]:
-        if isinstance(t.test, ast.Call) and dotted(t.test.func) == "hasattr" and len(t.test.args) == 2 and isinstance(t.test.args[1], ast.Constant) and t.test.args[1].value == "dimension":
-            if len(t.body) == 1 and isinstance(t.body[0], ast.Return) and isinstance(t.body[0].value, ast.Tuple) and len(t.body[0].value.elts) == 2:
-                e0, e1 = t.body[0].value.elts
-                if dotted(e0) == dotted(t.test.args[0]) and ((isinstance(e1, ast.Call) and dotted(e1.func) == "getattr" and e1.args[1].value == "dimension") or dotted(e1) == f"{dotted(e0)}.dimension"):
-                    good = True
-    if not good:
-        run.violate("S6", f"{mod.name}:entry:leaf", mod, ent, "symbols/quantities/functions no longer return (themselves, their declared dimension)")
-
-
-def _names_in_slice(cfg, r, e) -> set:
-    sl = cfg.slice(r, [e])
-    out = set()
-    for x in sl.exprs:
-        for n in ast.walk(x):
-            if isinstance(n, ast.Name):
-                out.add(n.id)
-    return out
+    _k5(run, w)
+    _collector(run)
+    _symbolic_init(run)
